@@ -277,10 +277,10 @@ def c20_4(ctx):
     if ok:
         d = deref(ctx, vs, writes[0].args[0], writes[0])
         ok = isinstance(d, ast.Call) and isinstance(d.func, ast.Attribute) and d.func.attr == 'replace' and unparse(d.args[0]) == "'##LANGUAGE_ID##'" \
-            and unparse(d.args[1]) == 'self.language_id'
+            and unparse(d.args[1]) in ('xml_escape(self.language_id)', 'escape(self.language_id)', 'xml.sax.saxutils.escape(self.language_id)', 'saxutils.escape(self.language_id)')
         inner = deref(ctx, vs, d.func.value, d) if ok else None
         ok = ok and isinstance(inner, ast.Call) and unparse(inner.func).endswith('.read')
-    ctx.check(ok, 'wellformed:vscode:theme-text', vs.site(writes[0]) if writes else vs.site(), 'the colour theme is the template with only the language id substituted',
+    ctx.check(ok, 'wellformed:vscode:theme-text', vs.site(writes[0]) if writes else vs.site(), 'the colour theme (an XML property list) is the template with only the XML-escaped language id substituted',
               '; '.join(unparse(w) for w in writes))
     sb = ctx.repo.func(SB)
     yd = [c for c in ast.walk(sb.node) if isinstance(c, ast.Call) and unparse(c.func) == 'yaml.dump']
@@ -370,6 +370,17 @@ def c20_case(ctx):
                       f'{val[:70]} is case-sensitive: `LDA` / `Push2` are not classified although they assemble')
     if n < 6:
         ctx.err('case:inventory', '-', 'at least 6 vocabulary patterns in the two templates', f'{n}')
+    # keyword alternations built from sets (any order) must not let a keyword that is a prefix of another win: they end at a word boundary
+    for rel, loader in (('vscode/resources/tmGrammar.json', 'json'), ('sublime/resources/sublime-syntax.yaml', 'yaml')):
+        text = open(os.path.join(base, rel)).read()
+        data = json.loads(text) if loader == 'json' else __import__('yaml').safe_load(text)
+        for where, val in strings(data):
+            for tok in ('##PREPROCESSOR##', '##DIRECTIVES##', '##DATATYPES##', '##EXPRESSION_FUNCTIONS##', '##COMPILERCONSTANTS##'):
+                if tok in val:
+                    after = val.split(tok, 1)[1]
+                    ctx.check(after.startswith(')\\b'), f'boundary:{rel.split("/")[0]}:{tok}', f'src/bespokeasm/configgen/{rel}:1',
+                              f'the alternation substituted for {tok} is followed by a word boundary (`ifdef` is not `if` + `def`, whatever the order of the alternatives)',
+                              f'{val[:80]}')
 
 
 def c20_state(ctx):
@@ -409,6 +420,7 @@ _C = 'configgen/__init__.py'
 _V = 'configgen/vscode/__init__.py'
 _S = 'configgen/sublime/__init__.py'
 MUTANTS = [
+    V('c20-preprocessor-no-boundary', 'configgen/sublime/resources/sublime-syntax.yaml', "        - match: (?<=\\#)(?:##PREPROCESSOR##)\\b", "        - match: (?<=\\#)(?:##PREPROCESSOR##)", 'C20.5'),
     V('c20-macros-case-sensitive', 'configgen/vscode/resources/tmGrammar.json', '"begin": "(?i)(##MACROS##)",', '"begin": "(##MACROS##)",', 'C20.5'),
     V('c20-model-set-updated-via-alias', 'configgen/vscode/__init__.py', "        grammar_json['scopeName'] = scope_name\n", "        grammar_json['scopeName'] = scope_name\n        every = self.model.instruction_mnemonics\n        every.update(self.model.macro_mnemonics)\n", 'C20.6'),
     V('c20-zip-append', _S, "        archive_file = ZipFile(archive_fp, 'w')", "        archive_file = ZipFile(archive_fp, 'a')", 'C20.4'),
